@@ -80,6 +80,15 @@ Theorem C02_sqlite_nul :
     exists text, render Sqlite (VStr s) = Some text /\ sqlite_accepts text = negb (contains c_nul s).
 Proof. exact (@sqlite_nul). Qed.
 
+(* enum values placed in sqlite / sybase / mssql CHECK constraints go through the POSTGRES converter:
+   the text is either a plain ANSI literal of the value or starts with E' (refused by those engines; observed on sqlite) *)
+Theorem C02_enum_value_non_postgres :
+  forall (s rest : str),
+    no_quote_start rest ->
+    exists text, render Postgres (VStr s) = Some text /\
+      ((contains c_bsl text = false /\ lex_ansi (text ++ rest) = Some (s, rest)) \/ starts_with [c_E; c_q] text = true).
+Proof. exact (@enum_value_ansi). Qed.
+
 (* ---- every value is exactly its literal token(s) ---- *)
 (* strings, ints, bools, None, dates, datetimes, times, (nested) sequences; in any
    position followed by end of text, a space, `)` or `,` *)
@@ -169,6 +178,7 @@ Print Assumptions C02_string_mysql.
 Print Assumptions C02_string_pg_partial.
 Print Assumptions C02_string_tsql_partial.
 Print Assumptions C02_sqlite_nul.
+Print Assumptions C02_enum_value_non_postgres.
 Print Assumptions C02_value_tokens.
 Print Assumptions C02_sequence.
 Print Assumptions C02_insert.
